@@ -54,14 +54,17 @@ type c15Site struct {
 	TLS    *c15TLS `json:"tls,omitempty"`
 }
 type c15In struct {
-	Kind  string    `json:"kind"` // pipe | redir | class | ip | split
+	Kind  string    `json:"kind"` // pipe | redir | redire2e | class | ip | net | split
 	Sites []c15Site `json:"sites,omitempty"`
 	// redir
 	RPort  string `json:"rport,omitempty"`
 	Method string `json:"method,omitempty"`
 	Host   string `json:"hosthdr,omitempty"`
 	Target string `json:"target,omitempty"`
-	// class / ip / split
+	// redire2e: Sites = the declared sites, Proto "1.0" | "1.1", NoHost = no Host header line
+	Proto  string `json:"proto,omitempty"`
+	NoHost bool   `json:"nohost,omitempty"`
+	// class / ip / net / split
 	S     string `json:"s,omitempty"`
 	Label string `json:"label,omitempty"`
 }
@@ -408,9 +411,167 @@ func c15RunRedir(in *c15In) Result {
 	if strings.HasPrefix(in.Host, "[") {
 		sig = "redir:bracketed-ipv6-host"
 	}
-	return Result{Term: cApp("CRedir", cStr(in.RPort), cStr(hostHdr), cStr(uri), cStr(in.Host), cStr(in.Target), cN(uint64(rec.Code)), cStr(loc)),
-		Obs: map[string]interface{}{"status": rec.Code, "location": loc}, Sig: sig, Direct: direct,
+	return Result{Term: cApp("CRedir", cStr(in.RPort), cStr(hostHdr), cStr(uri), cStr(in.Host), cStr(in.Target), cN(uint64(rec.Code)), cStr(loc), cStr(rec.Header().Get("Connection"))),
+		Obs: map[string]interface{}{"status": rec.Code, "location": loc, "connection": rec.Header().Get("Connection")}, Sig: sig, Direct: direct,
 		Nontrivial: true, Class: sig + ":rport=" + in.RPort}
+}
+
+// c15RunRedirE2E: end to end on a synthesised site.  The declared sites go through the same real
+// stages as a pipe case (parser, InspectServerBlocks, bind/tls setups, markQualified, enableAutoHTTPS,
+// makePlaintextRedirects, MakeServers); the *httpserver.Server MakeServers built for the HTTP port is
+// then served on a loopback listener and one raw request is written to a real TCP connection.  The
+// observation is the raw response: status, Location, Connection header, and whether the server
+// closed the connection afterwards.  r.Host and the request URI the model starts from are what
+// http.ReadRequest (the function net/http's server uses) makes of the same bytes.
+func c15RunRedirE2E(in *c15In) Result {
+	c15Init()
+	skip := func(why, cls string, direct string) Result {
+		return Result{Term: "CSkip", Obs: why, Direct: direct, Sig: "redire2e:" + cls, Class: "redire2e:" + cls}
+	}
+	c := c15Context()
+	var sb strings.Builder
+	for _, s := range in.Sites {
+		sb.WriteString(c15Block(s))
+	}
+	blocks, err := casketfile.Parse("Testfile", strings.NewReader(sb.String()), []string{"bind", "tls"})
+	if err == nil {
+		blocks, err = c.Context().InspectServerBlocks("Testfile", blocks)
+	}
+	if err != nil {
+		return skip("config not usable: "+err.Error(), "config-error", "")
+	}
+	ctx := c.Context()
+	for _, dir := range []string{"bind", "tls"} {
+		action, _ := casket.DirectiveAction("http", dir)
+		for _, b := range blocks {
+			toks, ok := b.Tokens[dir]
+			if !ok {
+				continue
+			}
+			for _, key := range b.Keys {
+				c.Key = key
+				c.Dispenser = casketfile.NewDispenserTokens("Testfile", toks)
+				if err := action(c); err != nil {
+					return skip("setup error: "+err.Error(), "config-error", "")
+				}
+			}
+		}
+	}
+	cfgs := httpserver.VerifC15SiteConfigs(ctx)
+	ndecl := len(cfgs)
+	httpserver.VerifC15MarkQualified(cfgs)
+	if err := httpserver.VerifC15EnableAutoHTTPS(cfgs, false); err != nil {
+		return skip("enableAutoHTTPS: "+err.Error(), "config-error", "")
+	}
+	cfgs = httpserver.VerifC15MakePlaintextRedirects(cfgs)
+	httpserver.VerifC15SetSiteConfigs(ctx, cfgs)
+	if len(cfgs) != ndecl+1 {
+		return skip(fmt.Sprintf("%d sites synthesised", len(cfgs)-ndecl), "no-single-redirect", "")
+	}
+	obs, direct := c15Observe(cfgs, ndecl)
+	rport := *obs[ndecl].Redir
+	servers, err := ctx.MakeServers()
+	if err != nil {
+		return skip("MakeServers: "+err.Error(), "config-error", "")
+	}
+	var hs *httpserver.Server
+	for _, sv := range servers {
+		if h, ok := sv.(*httpserver.Server); ok && strings.HasSuffix(h.Address(), ":80") {
+			hs = h
+		}
+	}
+	if hs == nil {
+		return skip("no server for the HTTP port", "no-http-server", "MakeServers built no server for :80 although a redirect site exists")
+	}
+	proto := "HTTP/1.1"
+	if in.Proto == "1.0" {
+		proto = "HTTP/1.0"
+	}
+	raw := in.Method + " " + in.Target + " " + proto + "\r\n"
+	if !in.NoHost {
+		raw += "Host: " + in.Host + "\r\n"
+	}
+	raw += "\r\n"
+	req, err := http.ReadRequest(bufio.NewReader(strings.NewReader(raw)))
+	if err != nil {
+		return skip("net/http rejects the request: "+err.Error(), "bad-request", "")
+	}
+	hostHdr, uri := req.Host, req.URL.RequestURI()
+	if in.Target == "*" {
+		// asterisk-form: net/http answers "OPTIONS *" itself, and no vhost path matches "*"
+		return skip("asterisk-form request target", "asterisk-form", "")
+	}
+	// which site the request is for: the vhost lookup uses the host name without port and brackets,
+	// lower-cased (an absolute-URI target overrides the Host header); requests for another name are
+	// not this site's
+	reqName := hostHdr
+	if h, _, err := net.SplitHostPort(hostHdr); err == nil {
+		reqName = h
+	}
+	reqName = strings.ToLower(strings.Trim(reqName, "[]"))
+	if sh := cfgs[ndecl].Addr.Host; sh != "" && reqName != sh {
+		return skip("request names "+reqName+", the redirect site is "+sh, "other-host", "")
+	}
+	ln, err := net.Listen("tcp", "127.0.0.1:0")
+	if err != nil {
+		panic(err)
+	}
+	done := make(chan struct{})
+	go func() { hs.Serve(ln); close(done) }()
+	defer func() { hs.Server.Close(); ln.Close(); <-done }()
+	conn, err := net.Dial("tcp", ln.Addr().String())
+	if err != nil {
+		panic(err)
+	}
+	defer conn.Close()
+	conn.SetDeadline(time.Now().Add(5 * time.Second))
+	if _, err := conn.Write([]byte(raw)); err != nil {
+		return skip("write: "+err.Error(), "io", "")
+	}
+	var rawResp strings.Builder
+	br := bufio.NewReader(io.TeeReader(conn, &rawResp))
+	resp, err := http.ReadResponse(br, req)
+	if err != nil {
+		return skip("no response: "+err.Error(), "io", "the HTTP server gave no parsable response: "+err.Error())
+	}
+	io.Copy(io.Discard, resp.Body)
+	resp.Body.Close()
+	// did the server close the connection?  (Connection: close must be honoured by net/http)
+	conn.SetReadDeadline(time.Now().Add(150 * time.Millisecond))
+	_, rerr := br.ReadByte()
+	closed := rerr == io.EOF
+	loc := resp.Header.Get("Location")
+	// http.ReadResponse strips "Connection: close" from the header map: read it off the raw bytes
+	connHdr := ""
+	if head, _, ok := strings.Cut(rawResp.String(), "\r\n\r\n"); ok {
+		for _, line := range strings.Split(head, "\r\n")[1:] {
+			if k, v, ok := strings.Cut(line, ":"); ok && strings.EqualFold(strings.TrimSpace(k), "Connection") {
+				connHdr = strings.TrimSpace(v)
+			}
+		}
+	}
+	if resp.StatusCode == 404 && in.NoHost {
+		// no Host header and no catch-all site: the vhost lookup finds no site, nothing is redirected
+		return skip("no Host header, no catch-all site: 404 from the vhost lookup", "no-host-no-site", "")
+	}
+	if resp.StatusCode == 400 && loc == "" {
+		// net/http's server refused the request before any handler ran (e.g. HTTP/1.1 without Host)
+		return skip("net/http answered 400 itself", "bad-request", "")
+	}
+	if direct == "" && connHdr == "close" && !closed {
+		direct = "the response says Connection: close but the server kept the connection open"
+	}
+	sig := "redire2e"
+	if strings.HasPrefix(in.Host, "[") {
+		sig = "redire2e:bracketed-ipv6-host"
+	}
+	hostSent := in.Host
+	if in.NoHost {
+		hostSent = ""
+	}
+	return Result{Term: cApp("CRedir", cStr(rport), cStr(hostHdr), cStr(uri), cStr(hostSent), cStr(in.Target), cN(uint64(resp.StatusCode)), cStr(loc), cStr(connHdr)),
+		Obs: map[string]interface{}{"status": resp.StatusCode, "location": loc, "connection": connHdr, "closed_by_server": closed, "redirect_port": rport},
+		Sig: sig, Direct: direct, Nontrivial: resp.StatusCode == 301, Class: fmt.Sprintf("%s:proto=%s:nohost=%v:rport=%s", sig, in.Proto, in.NoHost, rport)}
 }
 
 // c15PublicCert: certmagic.SubjectQualifiesForPublicCert(host) as caskettls.QualifiesForManagedTLS
@@ -441,6 +602,21 @@ func c15Run(in0 interface{}) Result {
 		return c15RunPipe(in)
 	case "redir":
 		return c15RunRedir(in)
+	case "redire2e":
+		return c15RunRedirE2E(in)
+	case "net":
+		ip := net.ParseIP(in.S)
+		var obs []string
+		if ip != nil {
+			for _, cidr := range []string{"10.0.0.0/8", "172.16.0.0/12", "192.168.0.0/16", "fc00::/7"} {
+				_, n, err := net.ParseCIDR(cidr)
+				if err != nil {
+					panic(err)
+				}
+				obs = append(obs, cBool(n.Contains(ip)))
+			}
+		}
+		return Result{Term: cApp("CNet", cStr(in.S), cList(obs)), Obs: obs, Sig: "net", Nontrivial: ip != nil, Class: "net"}
 	case "class":
 		l, ok := c15Labels[in.Label]
 		if !ok {
@@ -580,8 +756,10 @@ func c15GenSite(r *Rand, pool []string) c15Site {
 func c15Gen(r *Rand, tier string) []interface{} {
 	var out []interface{}
 	nPipe, nRedir, nClassRand, nIPRand, splitLen := 2600, 900, 500, 900, 5
+	nE2E, tokLen, tokAlpha, binLen := 260, 5, []string{"", "1", "fc00", "10.0.0.1"}, 8
 	if tier == "thorough" {
 		nPipe, nRedir, nClassRand, nIPRand, splitLen = 30000, 9000, 5000, 9000, 7
+		nE2E, tokLen, tokAlpha, binLen = 3200, 6, []string{"", "1", "fc00", "10.0.0.1", "0", "ffff"}, 11
 	}
 	// ---- pipeline: single sites over every host class, then site sets with shared hosts
 	for _, h := range c15SiteHosts {
@@ -644,6 +822,55 @@ func c15Gen(r *Rand, tier string) []interface{} {
 		}
 		out = append(out, in)
 	}
+	// ---- the redirect response end to end: real server for the HTTP port, real TCP, raw request bytes
+	manual := &c15TLS{Arg: "a2"}
+	type e2eCfg struct {
+		sites []c15Site
+		hosts []string // Host header values that select the redirect site
+		any   bool     // catch-all: every Host value (and none) reaches it
+	}
+	e2eCfgs := []e2eCfg{
+		{sites: []c15Site{{Host: "example.com", Port: "443", TLS: manual}}, hosts: []string{"example.com", "example.com:80", "EXAMPLE.com", "Example.COM:8080", "example.com:"}},
+		{sites: []c15Site{{Host: "example.com", Port: "8443", TLS: manual}}, hosts: []string{"example.com", "example.com:80", "EXAMPLE.COM:80"}},
+		{sites: []c15Site{{Host: "example.com", Port: "444", TLS: &c15TLS{Arg: "a1", Val: "self_signed"}}}, hosts: []string{"example.com", "example.com:80"}},
+		{sites: []c15Site{{Host: "example.com", Port: "8443", TLS: manual}, {Host: "example.com", Port: "9443", TLS: manual}}, hosts: []string{"example.com", "example.com:80"}},
+		{sites: []c15Site{{Host: "example.com", Port: "9443", TLS: manual}, {Host: "example.com", Port: "443", TLS: manual}, {Host: "other.example", Port: "80"}}, hosts: []string{"example.com", "example.com:80"}},
+		{sites: []c15Site{{Host: "[::1]", Port: "8443", TLS: manual}}, hosts: []string{"[::1]", "[::1]:80", "[::1]:8080"}},
+		{sites: []c15Site{{Host: "[2001:db8::1]", Port: "443", TLS: manual}}, hosts: []string{"[2001:db8::1]", "[2001:db8::1]:80", "[2001:DB8::1]:80"}},
+		{sites: []c15Site{{Host: "127.0.0.1", Port: "8443", TLS: manual}}, hosts: []string{"127.0.0.1", "127.0.0.1:80"}},
+		{sites: []c15Site{{Host: "", Port: "8443", TLS: manual}}, any: true},
+		{sites: []c15Site{{Host: "", Port: "443", TLS: manual}}, any: true},
+	}
+	for i := 0; i < nE2E; i++ {
+		cfg := e2eCfgs[i%len(e2eCfgs)]
+		in := &c15In{Kind: "redire2e", Sites: cfg.sites, Method: r.Pick(methods), Proto: "1.1"}
+		if cfg.any {
+			in.Host = r.Pick(hosts)
+		} else {
+			in.Host = r.Pick(cfg.hosts)
+		}
+		switch k := r.Intn(100); {
+		case k < 10:
+			in.Proto = "1.0"
+		case k < 35 && cfg.any:
+			in.Proto, in.NoHost, in.Host = "1.0", true, ""
+		case k < 20:
+			in.Proto, in.NoHost, in.Host = "1.0", true, ""
+		}
+		if r.Chance(10) {
+			in.Target = r.Pick(special)
+		} else {
+			t := ""
+			for k := r.Range(1, 4); k > 0; k-- {
+				t += "/" + r.Pick(segs)
+			}
+			if r.Chance(20) {
+				t += "/"
+			}
+			in.Target = t + r.Pick(queries)
+		}
+		out = append(out, in)
+	}
 	// ---- classifiers: every labelled host; labelled hosts with decorations and random strings as "any"
 	for _, l := range c15LabelOrder {
 		for _, h := range c15HostsByLabel[l] {
@@ -654,6 +881,22 @@ func c15Gen(r *Rand, tier string) []interface{} {
 		// first octet sweep and the 172.x / 192.x second octet sweeps
 		for _, s := range []string{fmt.Sprintf("%d.1.2.3", a), fmt.Sprintf("172.%d.0.1", a), fmt.Sprintf("192.%d.0.1", a), fmt.Sprintf("%x00::1", a)} {
 			out = append(out, &c15In{Kind: "class", Label: "any", S: s})
+		}
+	}
+	// names under an internal-only suffix with 1..6 labels in front of it (the suffix test must not
+	// depend on the number of labels)
+	for _, tld := range []string{".test", ".example", ".invalid", ".local"} {
+		for n := 1; n <= 6; n++ {
+			var ls []string
+			for k := 0; k < n; k++ {
+				ls = append(ls, r.Pick([]string{"www", "api", "v2", "corp", "db", "a", "x-1", "cluster"}))
+			}
+			out = append(out, &c15In{Kind: "class", Label: "privtld", S: strings.Join(ls, ".") + tld})
+		}
+	}
+	for _, suf := range []string{".localhost", ".local", ".home.arpa"} {
+		for n := 1; n <= 4; n++ {
+			out = append(out, &c15In{Kind: "class", Label: "certinternal", S: strings.Repeat("sub.", n-1) + "name" + suf})
 		}
 	}
 	deco := func(h string) string {
@@ -712,6 +955,51 @@ func c15Gen(r *Rand, tier string) []interface{} {
 		}
 		out = append(out, &c15In{Kind: "ip", S: string(s)})
 	}
+	// ---- net.ParseIP model, exhaustively over a small hextet alphabet: every ':'-joined sequence of
+	// up to tokLen tokens ("" yields the "::" forms), and every sequence over {"", "1"} up to binLen
+	// tokens (full 8-group addresses and over-long ones)
+	var tokRec func(prefix []string, alpha []string, maxLen int)
+	tokRec = func(prefix []string, alpha []string, maxLen int) {
+		if len(prefix) > 0 {
+			out = append(out, &c15In{Kind: "ip", S: strings.Join(prefix, ":")})
+		}
+		if len(prefix) == maxLen {
+			return
+		}
+		for _, t := range alpha {
+			tokRec(append(append([]string(nil), prefix...), t), alpha, maxLen)
+		}
+	}
+	tokRec(nil, tokAlpha, tokLen)
+	var binRec func(prefix []string)
+	binRec = func(prefix []string) {
+		if len(prefix) > tokLen {
+			out = append(out, &c15In{Kind: "ip", S: strings.Join(prefix, ":")})
+		}
+		if len(prefix) == binLen {
+			return
+		}
+		for _, t := range []string{"", "1"} {
+			binRec(append(append([]string(nil), prefix...), t))
+		}
+	}
+	binRec(nil)
+	// ---- IPNet.Contains of the four private networks: octet sweeps in plain and ::ffff: mapped form,
+	// first-byte and second-byte sweeps of IPv6, and every IP literal of the host lists
+	for a := 0; a < 256; a++ {
+		tmpl := []string{fmt.Sprintf("::ffff:%d.9.8.7", a), fmt.Sprintf("::ffff:172.%d.255.254", a), fmt.Sprintf("192.%d.0.1", a), fmt.Sprintf("%x00::1", a), fmt.Sprintf("%xff:ffff::", a)}
+		if tier == "thorough" {
+			tmpl = append(tmpl, fmt.Sprintf("%d.1.2.3", a), fmt.Sprintf("172.%d.0.1", a), fmt.Sprintf("::ffff:192.%d.3.4", a), fmt.Sprintf("fc%02x::1", a), fmt.Sprintf("::%x:0:1", a))
+		}
+		for _, s := range tmpl {
+			out = append(out, &c15In{Kind: "net", S: s})
+		}
+	}
+	for _, l := range []string{"loopv4", "loopv6", "privv4", "pubv4", "ulav6", "pubv6", "public"} {
+		for _, h := range c15HostsByLabel[l] {
+			out = append(out, &c15In{Kind: "net", S: strings.Trim(h, "[]")})
+		}
+	}
 	// ---- net.SplitHostPort model: exhaustive over a 4-letter alphabet
 	var rec func(p []byte)
 	rec = func(p []byte) {
@@ -733,7 +1021,7 @@ func c15Gen(r *Rand, tier string) []interface{} {
 func init() {
 	register(&Property{
 		ID: "C15", Imports: "V.Lib V.C15_Model", Judge: "judge", Shard: 500,
-		Rule: "pipe cases = Casketfile text through the real parser, InspectServerBlocks, bind/tls setups, the three pure stages of activateHTTPS and MakeServers, synthesised sites probed; redir = real redirect middleware on ReadRequest-parsed requests; class/ip/split = real classifiers and stdlib functions. non-trivial: pipe with at least one TLS-enabled or managed site, redir with a response, class with a positive classification, ip/split that parse; distinct = distinct Coq case term",
+		Rule: "redire2e = declared TLS sites through all real stages incl. MakeServers, the resulting HTTP-port server served on a loopback listener, one raw request over TCP, raw response observed (status, Location, Connection, connection closed); net = IPNet.Contains of the four private networks on net.ParseIP; ip also exhaustive over ':'-joined token sequences; pipe cases = Casketfile text through the real parser, InspectServerBlocks, bind/tls setups, the three pure stages of activateHTTPS and MakeServers, synthesised sites probed; redir = real redirect middleware on ReadRequest-parsed requests; class/ip/split = real classifiers and stdlib functions. non-trivial: pipe with at least one TLS-enabled or managed site, redir with a response, class with a positive classification, ip/split that parse; distinct = distinct Coq case term",
 		Gen: c15Gen,
 		Decode: func(raw json.RawMessage) (interface{}, error) {
 			in := &c15In{}
